@@ -1422,3 +1422,53 @@ def rule_narrowed_ref_bounded(ctx):
                     ctx.violated("NARROWREF", key, f.where(line), "the int32 parameter `%s` is narrowed to uint16 for %s with no comparison against MAX_REF before it: an id of 65536 + r finds the object with reference r" % (inner[1], c[1]))
     ctx.floor("NARROWREF", 3, n, "(instance look-ups keyed by a narrowed id parameter)")
     return n
+
+
+def rule_append_gap_filled(ctx):
+    """GAPZERO (C01): an appendable element that is last in the file grows in place: Hwrite raises the length in the descriptor
+    and writes the new bytes at `posn`.  When the write starts beyond the old end (`posn > data_len`, after a seek past the
+    end) the bytes in between become part of the element and must read as zeros; the file may already hold other bytes there
+    (the element was truncated earlier), so the branch that extends the element writes them: under a test of `posn` against
+    the old length it transfers a zero buffer before the data."""
+    from .codec import ast_walk
+    from .facts import calls_in
+    prog = ctx.prog
+    f = prog.func("Hwrite")
+    n = 0
+    if f is None or not f.raw.get("ast"):
+        ctx.unrecognised("GAPZERO", "GAPZERO:Hwrite", "-", "Hwrite not found")
+        return 0
+    ext = []
+
+    def vis(nd, st):
+        if nd[0] == "if" and nd[1] is not None and any(x[0] == "mem" and x[2] == "appendable" for x in walk(nd[1], True)) and any(x[0] == "bin" and x[1] == ">" for x in walk(nd[1], True)):
+            from .rules_loops import _terminates
+            if not _terminates(nd[2]):          # the refusal of writes past the end of a non-appendable element is not an extension
+                ext.append(nd)
+        return True
+
+    ast_walk(f.raw["ast"], vis)
+    for k, nd in enumerate(ext, 1):
+        n += 1
+        key = "GAPZERO:Hwrite#%d" % k
+        line = nd[-3] if isinstance(nd[-3], int) else f.line
+        fills = []
+
+        def vis2(k2, st):
+            if k2[0] == "if" and k2[1] is not None:
+                c = k2[1]
+                cmp_ = any(x[0] == "bin" and x[1] in (">", "<") and any(y[0] == "mem" and y[2] == "posn" for y in walk(x, True)) and any(y[0] == "var" and "len" in y[1] for y in walk(x, True)) for x in walk(c, True))
+                if cmp_:
+                    writes = []
+                    ast_walk(k2[2], lambda k3, s3: (writes.extend(1 for cc in (calls_in(k3[1], True) if k3[0] in ("s", "if", "while") and k3[1] is not None else []) if cc[1] in ("HP_write", "HI_WRITE")), True)[1])
+                    if writes:
+                        fills.append(k2)
+            return True
+
+        ast_walk(nd[2], vis2)
+        if fills:
+            ctx.holds("GAPZERO", key, f.where(line), "the branch that extends an appendable element writes the gap between the old end and the write position", nontrivial=True)
+        else:
+            ctx.violated("GAPZERO", key, f.where(line), "the branch that extends an appendable element in place never writes the bytes between the old end and `posn`: after a truncate they still hold the old data, which then reads back inside the element")
+    ctx.floor("GAPZERO", 1, n, "(in-place extensions of an appendable element)")
+    return n
